@@ -82,7 +82,7 @@ func runLBCB(x *X) {
 	var openedAfter time.Duration
 	succ := 0
 	var steps []string
-	classes := []string{"ok", "s500", "unreach", "abort", "ok"}
+	classes := []string{"ok", "s500", "unreach", "abort", "ok", "s404"} // (a 4xx answer is the client's problem: for the breaker the backend worked)
 	doReq := func(class string) (simResult, bool) {
 		var r simResult
 		ok := x.Do("req", func() { r = h.do(reqSpec{client: "192.0.2.1", plan: &reqPlan{mode: class}}) }, onErr)
@@ -172,7 +172,7 @@ func runLBCB(x *X) {
 			continue
 		}
 		steps = append(steps, class)
-		if class != "ok" {
+		if class != "ok" && class != "s404" {
 			x.Fault("backend-" + class)
 		}
 		invAt := x.Now()
